@@ -325,6 +325,41 @@ def shrink_with_hypothesis(mod, strat, sseed, examples, bucket, first_case, cap=
     return best['case']
 
 
+def make_machine(mod, res, header_st, step_st, Interp):
+    """Generic rule-based machine: one initialize rule (header) and one rule (step); the module's Interp applies steps
+    to the library objects and to its model and raises Failure on disagreement. Applied steps are logged in mod.LOG so
+    the (shrunk) failing history can be replayed by mod.evaluate({'steps': [...]}) without Hypothesis."""
+    from hypothesis.stateful import RuleBasedStateMachine, initialize, rule
+
+    class Machine(RuleBasedStateMachine):
+        def __init__(self):
+            super().__init__()
+            mod.LOG.clear()
+            self.interp = None
+
+        @initialize(h=header_st)
+        def init(self, h):
+            mod.LOG.append(h)
+            self.interp = Interp()
+            self.interp.apply(h)
+
+        @rule(s=step_st)
+        def step(self, s):
+            mod.LOG.append(s)
+            self.interp.apply(s)
+
+        def teardown(self):
+            if self.interp is not None:
+                try:
+                    case = {'steps': list(mod.LOG)}
+                    add_outcome(res, case, outcome(labels=self.interp.labels(), nontrivial=self.interp.nontrivial()))
+                finally:
+                    self.interp.close()
+
+    Machine.__name__ = f'{mod.PROPERTY}Machine'
+    return Machine
+
+
 def run_stateful_shard(mod, task):
     """E2: Hypothesis RuleBasedStateMachine. The module's machine logs applied steps into
     mod.LOG (a list reset by the machine's __init__); a failing run raises Failure."""
@@ -333,20 +368,22 @@ def run_stateful_shard(mod, task):
     from hypothesis import HealthCheck, Phase, settings
     res = new_result()
     findings = Findings(task['prop'])
-    Machine = mod.machine(task['tier'], res)
-    st = settings(max_examples=task['examples'], stateful_step_count=task.get('steps', 12),
+    classes = mod.machines(task['tier'], res, task['seed'])
+    per = max(1, task['examples'] // len(classes))
+    st = settings(max_examples=per, stateful_step_count=task.get('steps', 12),
                   database=None, deadline=None, derandomize=False, report_multiple_bugs=False,
                   phases=[Phase.generate, Phase.shrink],
                   suppress_health_check=list(HealthCheck), print_blob=False)
-    try:
-        run_state_machine_as_test(hseed(task['seed'])(Machine), settings=st)
-    except Failure as f:
-        case = {'steps': list(mod.LOG)}
-        out = safe_evaluate(mod, case)
-        if not any(list(b) == f.bucket for b, _ in out['failures']):
-            # replay through the plain interpreter must reproduce; otherwise it is a harness problem
-            raise RuntimeError(f'stateful failure {f.bucket} did not reproduce from its step log') from f
-        res['failures'].append({'bucket': f.bucket, 'detail': f.detail, 'case': case, 'shrunk': True})
+    for j, Machine in enumerate(classes):
+        try:
+            run_state_machine_as_test(hseed(task['seed'] + j)(Machine), settings=st)
+        except Failure as f:
+            case = {'steps': list(mod.LOG)}
+            out = safe_evaluate(mod, case)
+            if not any(list(b) == f.bucket for b, _ in out['failures']):
+                # replay through the plain interpreter must reproduce; otherwise it is a harness problem
+                raise RuntimeError(f'stateful failure {f.bucket} did not reproduce from its step log: {out["failures"]}') from f
+            res['failures'].append({'bucket': f.bucket, 'detail': f.detail, 'case': case, 'shrunk': True})
     return res
 
 
@@ -372,7 +409,7 @@ def run(prop, tier, seed):
         tasks.append({'kind': 'hyp_sub', 'prop': prop, 'tier': tier, 'shard': 500 + j, 'examples': sub['examples'],
                       'seed': derive_seed(seed, prop, 500 + j), 'env': sub['env'], 'shrink_cap': 30})
     nst = budget.get('stateful_shards', 0)
-    if nst and hasattr(mod, 'machine'):
+    if nst and hasattr(mod, 'machines'):
         per = max(1, budget['stateful_examples'] // nst)
         for i in range(nst):
             tasks.append({'kind': 'stateful', 'prop': prop, 'tier': tier, 'shard': i, 'examples': per,
